@@ -77,6 +77,10 @@ func runCase(t *testing.T, rt *rapid.T, rec *simkit.Recorder, prof *profile) {
 		for i := 0; i < n; i++ {
 			w.step()
 		}
+		w.evMain = map[string]int{}
+		for k, v := range w.m.ev {
+			w.evMain[k] = v
+		}
 		w.finish()
 	})
 	if rapidPanic != nil {
@@ -95,7 +99,7 @@ func runCase(t *testing.T, rt *rapid.T, rec *simkit.Recorder, prof *profile) {
 		rec.Note(d)
 		rec.Label("diagnostic")
 	}
-	rec.Case(w.script, prof.nontrivial(w.m.ev, w.labels), labelsOf(w)...)
+	rec.Case(w.script, prof.nontrivial(w.evMain, w.labels), labelsOf(w)...)
 }
 
 // warmup registers the clients (and for lock-heavy profiles opens a
@@ -136,7 +140,8 @@ func weights(m map[string]int) []string {
 		keys = append(keys, k)
 	}
 	sort.Strings(keys)
-	var l []string
+	// Index 0 is where shrinking converges: make it a harmless probe.
+	l := []string{kLookup}
 	for _, k := range keys {
 		l = rep(l, k, m[k])
 	}
@@ -148,9 +153,9 @@ var profC18 = &profile{
 	ops: weights(map[string]int{
 		kOpen: 9, kOpenConfirm: 6, kOpenDowngrade: 4, kClose: 4, kLock: 5, kLocku: 1, kLockt: 1, kReleaseLockowner: 2,
 		kRead: 3, kWrite: 3, kSetattr: 1, kRemove: 2, kLookup: 1, kPutfh: 3,
-		kSetclientid: 3, kSetclientidConfirm: 4, kRenew: 2, "advance": 4, "vanish": 1, "release": 6, "retx": 1,
+		kSetclientid: 2, kSetclientidConfirm: 3, kRenew: 2, "advance": 3, "vanish": 1, "release": 6, "retx": 1,
 	}),
-	minSteps: 20, maxSteps: 70, devPct: 20, parkPct: 20, warmPct: 85,
+	minSteps: 25, maxSteps: 90, devPct: 12, parkPct: 15, warmPct: 90, confirmPct: 85,
 	nontrivial: func(ev, labels map[string]int) bool {
 		return (ev["open_upgrade"] > 0 || ev["downgrade"] > 0) && ev["lock_owner_cloned_share"] > 0 && (ev["reclaim_by_expiry"] > 0 || ev["reclaim_by_reregistration"] > 0)
 	},
@@ -164,7 +169,7 @@ var profC19 = &profile{
 		kSetclientid: 1, kSetclientidConfirm: 2, kRenew: 1, "advance": 2, "release": 7,
 		"retx": 10, "retx_diff_op": 3, "retx_diff_sid": 3,
 	}),
-	minSteps: 15, maxSteps: 60, devPct: 15, parkPct: 25, warmPct: 90,
+	minSteps: 15, maxSteps: 60, devPct: 10, parkPct: 25, warmPct: 90, confirmPct: 85,
 	nontrivial: func(ev, labels map[string]int) bool {
 		return ev["replay_ok_open"] > 0 || ev["replay_ok_close"] > 0 || ev["replay_ok_lock"] > 0
 	},
@@ -177,7 +182,7 @@ var profC20 = &profile{
 		kRead: 1, kWrite: 1, kOpenDowngrade: 1,
 		kSetclientid: 1, kSetclientidConfirm: 1, kRenew: 1, "advance": 2, "release": 2, "retx": 1,
 	}),
-	minSteps: 20, maxSteps: 70, devPct: 10, parkPct: 5, warmPct: 95, warmOpen: true,
+	minSteps: 20, maxSteps: 70, devPct: 8, parkPct: 5, warmPct: 95, warmOpen: true, confirmPct: 95,
 	nontrivial: func(ev, labels map[string]int) bool {
 		return ev["two_lock_owners_hold"] > 0 && ev["lock_split_or_merge"] > 0 && ev["lock_to_max_offset"] > 0
 	},
